@@ -230,6 +230,39 @@ def check(cx):
                    "casting %s to %s checks the range against %s instead of %s" % (src, tgt, sorted(bounds), sorted(want)))
 
 
+    # ---- C19.6 integer -> integer casts of the value types --------------------------------------------------------------------
+    r6 = cx.rule("C19.6", "FLOW: in `impl TypeCast<IntN|UIntN> for IntM|UIntM` no unsigned value is turned into a signed one of the same or a smaller "
+                 "width by a primitive `as` cast: that narrowing goes through TryFrom, because `x as i32 as u32 == x` holds for every x "
+                 "and a round-trip test accepts 3000000000 as -1294967296 (signed -> unsigned under `>= 0`, and same-sign narrowing "
+                 "checked by the round trip, are sound)", floor=6)
+    n_int = 0
+    for f in sorted(p.fns.values(), key=lambda x: x.id):
+        m_ = _re.match(r"^<types::numeric::(U?Int\d+) as types::core::TypeCast<types::numeric::(U?Int\d+)>>::try_cast$", f.id)
+        if not m_ or m_.group(1) == m_.group(2):
+            continue
+        n_int += 1
+        src, tgt = m_.group(1), m_.group(2)
+        lossy = []
+        for gid in [f.id] + list(p.closure_children.get(f.id, ())):
+            g = p.raw_fns[gid]
+            for b in g.blocks:
+                for st in b["stmts"]:
+                    rv = st["rv"]
+                    if rv.get("r") == "cast" and rv.get("kind") == "IntToInt":
+                        o = rv["o"][0]
+                        pl = o.get("c") or o.get("m")
+                        sty = core.place_type(p, g, pl) if pl else None
+                        dty = rv.get("to")
+                        if sty in RANGE and dty in RANGE and (RANGE[dty][0] > RANGE[sty][0] or RANGE[dty][1] < RANGE[sty][1]) \
+                                and sty[0] == "u" and dty[0] != "u":
+                            # unsigned -> signed of the same or a smaller width: the reinterpretation survives the cast back
+                            lossy.append("%s as %s" % (sty, dty))
+        cx.verdict(not lossy, r6, "%s->%s" % (src, tgt), f.where(), "no sign-changing lossy `as` cast",
+                   "casting %s to %s uses %s: a value outside the target's range is reinterpreted instead of rejected (a round-trip "
+                   "comparison cannot see it)" % (src, tgt, sorted(set(lossy))))
+    if n_int == 0:
+        cx.bad(r6, "anchor-missing", "", "no integer-to-integer TypeCast impl found")
+
     # ---- C19.5 (construct shared with C05.6) ---------------------------------------------------------------------------
     from . import c05
     cx.include(c05, {"C05.6"}, "C19.5", "shared with C05.6: an index bound compares the stored values with the literal as written; a literal cast to "
